@@ -10,6 +10,7 @@ CHECKS = {
  "C02": dict(text="Bounded model checking of the generated Parser.Parse (tables and driver emitted by the current gocc on every run) against a CYK recogniser over /verif's own representation of each corpus grammar: for every token sequence up to the length bound, err == nil iff the sequence is a sentence; termination = unwinding assertion of the parse loop.", ref="7 C02", tech="symbolic execution of generated Go (go/ssa -> QF_BV, path forking decided by the solver) against an executable CYK oracle; z3/cvc5"),
  "C03": dict(text="Bounded model checking of the generated parser with recording actions on every alternative: for every token sequence up to the bound and every choice of a failing action, the recorded calls are the post-order evaluation of a derivation tree with the scanner's own token objects at the leaves; default actions checked on the generated reduce functions.", ref="7 C03", tech="symbolic execution of generated Go with trace-checking harness (QF_BV), decided by z3/cvc5"),
  "C06": dict(text="Bounded model checking of error reports of the generated parser against a viable-prefix recogniser: first offending token (object identity), no action with it as look-ahead, expected list = exact follow set of the valid prefix, for every non-sentence up to the length bound.", ref="7 C06", tech="symbolic execution of generated Go against an executable viable-prefix oracle (QF_BV), decided by z3/cvc5"),
+ "C07": dict(text="Bounded model checking of error recovery in the generated parser: for every token sequence up to the bound on grammars with error alternatives, no panic record and no unwinding failure of Parse/Error/popNonRecoveryStates/firstRecoveryState is satisfiable; verdict, reductions, attributes and error attributes equal those of a reference LR driver with its own transcription of the stated recovery rule; error alternatives are inert on sentences of the error-free twin (CYK).", ref="7 C07", tech="symbolic execution of generated Go in lock-step with a reference driver (QF_BV, solver-decided path forking), z3/cvc5"),
  "C08": dict(text="Bounded model checking of the generated Lexer.Scan (emitted by the current template on every run): one Scan from every reachable (offset,line,column) on ABSTRACT tables (transition function uninterpreted, action rows arbitrary under the generator's row contract: all lexers with <= 4 states at once) and on the real tables of corpus lexers; positions, literal, tiling and the re-established position invariant are asserted for every source up to the byte bound.", ref="7 C08", tech="symbolic execution of the generated Go (go/ssa -> QF_BV) over uninterpreted lexer tables, inductive step, decided by z3/cvc5"),
  "C19": dict(text="Bounded model checking of the real md.loadMd on every rune slice up to the length bound against a position-wise specification of fenced-code extraction.", ref="7 C19", tech="symbolic execution of go/ssa into QF_BV, BMC over all inputs up to a length, decided by z3/cvc5"),
  "C20": dict(text="Bounded model checking of util.LitToRune against strconv.UnquoteChar (both executed symbolically) on every valid rune literal (all lengths 3..12 bytes), and of IntValue/UintValue as pass-through wrappers of strconv (uninterpreted).", ref="7 C20", tech="symbolic execution of go/ssa into QF_BV, differential harness against the standard library, decided by z3/cvc5"),
